@@ -2,6 +2,8 @@
 #include "pki.h"
 #include <algorithm>
 
+extern "C" void log_console_conf(bool enabled);   // libxcm/core/log.c
+
 namespace xs {
 
 static std::vector<Family> *fams() { static auto *v = new std::vector<Family>(); return v; }
@@ -55,6 +57,8 @@ void gen_common_knobs(Rng &r, Plan &plan, bool faults) {
         p["eagain_recv_pm"] = r.chance(0.3) ? (int64_t)r.range(20, 300) : 0;
         p["delay_pm"] = r.chance(0.2) ? (int64_t)r.range(20, 200) : 0;
     }
+    p["debug_log"] = r.chance(0.1);
+    p["plain_api"] = r.chance(0.3);     // xcm_connect / xcm_server / xcm_accept instead of the _a variants where no attributes are wanted
 }
 
 void install_basic_tls_files(const std::string &dir) {
@@ -148,6 +152,9 @@ Result run_plan(const Plan &plan, bool verbose) {
     on_sim_exit = nullptr;
     det_rand_seed(plan.seed ^ 0x1111);
     g_run_nontrivial = false;
+    // swarm knob: the library's console log switched on (every LOG_ macro formats its arguments under the sanitizers;
+    // the text itself is discarded by the fputs seam)
+    log_console_conf(plan.P("debug_log") != 0);
 
     f->setup(plan);
     EndReason r = sim.run();
@@ -179,6 +186,7 @@ Result run_plan(const Plan &plan, bool verbose) {
         return res;
     }
     xapi_reset();
+    log_console_conf(false);
     G = nullptr;
     K = nullptr;
     return res;
